@@ -99,6 +99,18 @@ func scaleWorkload(w *World, sc *Scenario, delta int32) error {
 			return err
 		}
 		return w.Raw.Update(ctx, adm)
+	case "Deployment":
+		old := &apps.Deployment{}
+		if !w.Get(old, sc.ns(), AppName) {
+			return fmt.Errorf("workload gone")
+		}
+		upd := old.DeepCopy()
+		upd.Spec.Replicas = utilpointer.Int32(*old.Spec.Replicas + delta)
+		adm, err := w.AdmitWorkloadUpdate(old, upd)
+		if err != nil {
+			return err
+		}
+		return w.Raw.Update(ctx, adm)
 	}
 	return fmt.Errorf("scale: kind %s not supported", sc.Kind)
 }
